@@ -201,6 +201,9 @@ pub fn check_order(a: i64, b: i64) -> Result<(), String> {
         if x.cmp(&y) != want || x.partial_cmp(&y) != Some(want) || (x == y) != (a == b) || (x < y) != (a < b) || (x <= y) != (a <= b) || (x > y) != (a > b) || (x >= y) != (a >= b) {
             return Err(format!("timestamps {a} and {b}: comparison operators disagree with chronological order"));
         }
+        if !ord_provided_ok(x, y, want) {
+            return Err(format!("timestamps {a} and {b}: max / min / clamp / sort disagree with chronological order"));
+        }
         if a == b && h64(&x) != h64(&y) {
             return Err("equal timestamps hash differently".into());
         }
@@ -210,6 +213,9 @@ pub fn check_order(a: i64, b: i64) -> Result<(), String> {
         let pair = (da, ta).cmp(&(db, tb));
         if pair != want {
             return Err(format!("timestamps {a} and {b}: order of their (date, time) pairs is {pair:?}, of the instants {want:?}"));
+        }
+        if !ord_provided_ok(da, db, da.days().cmp(&db.days())) || !ord_provided_ok(ta, tb, ta.usecs().cmp(&tb.usecs())) {
+            return Err(format!("timestamps {a} and {b}: max / min / clamp / sort of their dates or times of day disagree with the counts"));
         }
         if (da == db) != (da.days() == db.days()) || (ta == tb) != (ta.usecs() == tb.usecs()) {
             return Err("Date / Time equality disagrees with their counts".into());
@@ -517,7 +523,7 @@ pub fn run(ctx: &Ctx) -> (Stats, Report) {
     st.section("ordering_pairs", &mut mark);
 
     let rep = Report {
-        rule: "Exhaustive: every date x critical times of day (midnight, +1us, noon-1/noon/noon+1, last us, 11:59, 23:59:59) plus seeded random times, each instant also compared (==, !=, <, <=, >, >=, partial_cmp, both argument orders) with the Date of the previous, same and next day and a far day; Date::and_hms with five tuples just outside the clock range on every date; every second of the day x boundary microseconds (also inside the first/last supported day and the days around 1970); all 10^6 microseconds at three seconds; the (h,m,s,us) validity grid with u32 extremes; ordering/equality/hash over boundary-pool neighbour pairs and seeded pairs. Oracle: i128 arithmetic n*86400e6+t and div/rem decomposition, walked calendar for y/m/d. Non-trivial = before 1970, exact midnight or last microsecond of a day, rejected tuple, out-of-range count; ordering pairs counted by distinct fingerprint.".into(),
+        rule: "Exhaustive: every date x critical times of day (midnight, +1us, noon-1/noon/noon+1, last us, 11:59, 23:59:59) plus seeded random times, each instant also compared (==, !=, <, <=, >, >=, partial_cmp, both argument orders) with the Date of the previous, same and next day and a far day; Date::and_hms with five tuples just outside the clock range on every date; every second of the day x boundary microseconds (also inside the first/last supported day and the days around 1970); all 10^6 microseconds at three seconds; the (h,m,s,us) validity grid with u32 extremes; ordering/equality/hash over boundary-pool neighbour pairs and seeded pairs, including the provided Ord methods (max, min, clamp) and sorting for Timestamp, Date and Time. Oracle: i128 arithmetic n*86400e6+t and div/rem decomposition, walked calendar for y/m/d. Non-trivial = before 1970, exact midnight or last microsecond of a day, rejected tuple, out-of-range count; ordering pairs counted by distinct fingerprint.".into(),
         assumptions: vec![
             "second() is compared with the correctly rounded double of (microseconds within the minute)/10^6".into(),
             "hash consistency is checked with std's fixed-key DefaultHasher".into(),
